@@ -156,7 +156,18 @@ func VH_c12_llgr() {
 			ltuples = append(ltuples, bgp.NewCapLongLivedGracefulRestartTuple(f, true, llgrTime))
 		}
 	}
-	p := newPeer(&s.bgpConfig.Global, c, bgp.BGP_FSM_OPENCONFIRM, s.globalRib, s.policy, s.logger)
+	// route_server = 1: the three neighbours are route-server clients and the peer without the
+	// long-lived GR capability asked for secondary routes (sendSecondaryRoutes instead of filterpath)
+	rs := vParam("route_server") == 1
+	rib, tableID := s.globalRib, table.GLOBAL_RIB_NAME
+	if rs {
+		c.RouteServer.Config.RouteServerClient = true
+		rib = s.rsRib
+	}
+	p := newPeer(&s.bgpConfig.Global, c, bgp.BGP_FSM_OPENCONFIRM, rib, s.policy, s.logger)
+	if rs {
+		s.policy.SetPeerPolicy(p.ID(), c.ApplyPolicy)
+	}
 	s.neighborMap[c.State.NeighborAddress] = p
 	caps := []bgp.ParameterCapabilityInterface{bgp.NewCapMultiProtocol(bgp.RF_IPv4_UC), bgp.NewCapMultiProtocol(bgp.RF_IPv6_UC), bgp.NewCapFourOctetASNumber(65001),
 		bgp.NewCapGracefulRestart(false, true, 120, gtuples), bgp.NewCapLongLivedGracefulRestart(ltuples)}
@@ -166,8 +177,17 @@ func VH_c12_llgr() {
 	tc := vNeighbor(4, 65003, 65000, v4)
 	tc.GracefulRestart.Config.LongLivedEnabled = true
 	tc.AfiSafis[0].LongLivedGracefulRestart.State.Enabled = true
+	pc := vNeighbor(5, 65004, 65000, v4)
+	if rs {
+		tc.RouteServer.Config.RouteServerClient = true
+		pc.RouteServer.Config.RouteServerClient = true
+		pc.RouteServer.Config.SecondaryRoute = true
+	}
 	capable := vEstablished(s, tc, v4)
-	plain := vEstablished(s, vNeighbor(5, 65004, 65000, v4), v4)
+	plain := vEstablished(s, pc, v4)
+	if rs {
+		tableID = capable.TableID()
+	}
 	views := map[*peer]map[string]*table.Path{capable: {}, plain: {}}
 	drain := func() {
 		for t, view := range views {
@@ -204,7 +224,7 @@ func VH_c12_llgr() {
 	// the restart timer expires without re-establishment: long-lived phase
 	vTransition(s, p, bgp.BGP_FSM_IDLE, fsmRestartTimerExpired)
 	drain()
-	loc := s.globalRib.GetPathList(table.GLOBAL_RIB_NAME, 0, fams)
+	loc := rib.GetPathList(tableID, 0, fams)
 	var kept4, keptNo, kept6 *table.Path
 	for _, q := range loc {
 		switch q.GetPrefix() {
@@ -228,7 +248,7 @@ func VH_c12_llgr() {
 	// silence until the long-lived timer has run out
 	<-time.After(time.Duration(llgrTime+1) * time.Second)
 	drain()
-	loc = s.globalRib.GetPathList(table.GLOBAL_RIB_NAME, 0, fams)
+	loc = rib.GetPathList(tableID, 0, fams)
 	vAssert(len(loc) == 0 && p.adjRibIn.Count(fams) == 0, "LLGR_STALE routes survive the expiry of the long-lived timer")
 	vAssert(len(views[capable]) == 0, "an LLGR_STALE route stays advertised after the long-lived timer expired")
 	vAssert(!p.fsm.pConf.ReadOnly().GracefulRestart.State.PeerRestarting, "the peer is still reported as restarting after every long-lived timer expired")
@@ -245,7 +265,7 @@ func VH_c12_llgr() {
 	vTransition(s, p, bgp.BGP_FSM_IDLE, fsmRestartTimerExpired)
 	drain()
 	kept4 = nil
-	for _, q := range s.globalRib.GetPathList(table.GLOBAL_RIB_NAME, 0, fams) {
+	for _, q := range rib.GetPathList(tableID, 0, fams) {
 		if q.GetPrefix() == r4.String() {
 			kept4 = q
 		}
